@@ -181,6 +181,26 @@ def skip_line_is_code(src, pos):
     return not src[ls:pos + 3].lstrip().startswith("//")
 
 
+ENABLED_FEATURES = {"std", "pretty-print"}
+
+
+def fn_cfg_enabled(src, pos):
+    """Evaluate #[cfg(feature = "..")] / #[cfg(not(feature = ".."))] attributes directly above an item (default feature set)."""
+    lines = src[:pos].split("\n")[:-1]
+    k = len(lines) - 1
+    while k >= 0 and (lines[k].strip().startswith("#[") or lines[k].strip().startswith("///") or lines[k].strip() == ""):
+        t = lines[k].strip()
+        m = re.match(r'#\[cfg\((not\()?feature = "([^"]+)"\)?\)\]', t)
+        if m:
+            on = m.group(2) in ENABLED_FEATURES
+            if (m.group(1) and on) or (not m.group(1) and not on):
+                return False
+        if t == "":
+            break
+        k -= 1
+    return True
+
+
 def find_fn(src, lo, hi, name, want_depth):
     """Find `fn name` between lo..hi whose brace depth (relative to lo) is want_depth."""
     rx = re.compile(r"(?m)^[ \t]*(?:pub(?:\([^)]*\))?\s+)?(?:const\s+)?fn\s+%s\b" % re.escape(name))
@@ -199,7 +219,7 @@ def find_fn(src, lo, hi, name, want_depth):
             elif src[i] == "}":
                 depth -= 1
             i += 1
-        if depth == want_depth:
+        if depth == want_depth and fn_cfg_enabled(src, m.start()):
             cands.append(m)
     if len(cands) != 1:
         raise Undecided("lost anchor: fn %s found %d times" % (name, len(cands)))
@@ -434,6 +454,7 @@ def expand(template_path, std=True):
             panic_args = {}
             prepends = []
             appends = []
+            value_drops = []
             i += 1
             while tl[i].strip() != "//@end":
                 t = tl[i].strip()
@@ -449,6 +470,9 @@ def expand(template_path, std=True):
                 elif t.startswith("//@prepend "):
                     mm = re.match(r"//@prepend <<<(.*)>>>\s*$", t)
                     prepends.append(mm.group(1))
+                elif t.startswith("//@implicit-drop-value "):
+                    mm = re.match(r"//@implicit-drop-value <<<(.*)>>>\s*$", t)
+                    value_drops.append(mm.group(1))
                 elif t.startswith("//@implicit-drop "):
                     mm = re.match(r"//@implicit-drop <<<(.*)>>>\s*$", t)
                     appends.append(mm.group(1))
@@ -513,11 +537,16 @@ def expand(template_path, std=True):
                     raise Undecided("annotation for <<<%s>>> does not preserve the original text" % a)
                 body = body[:hits[0].start()] + b + body[hits[0].end():]
                 g.log.rule("Rannot: insert-only annotation (ghost iterator name / ghost statement); code text unchanged")
+            if value_drops:
+                # fn returns a value: { BODY } -> { let __r = { BODY }; <drop>; __r }
+                body = "{ let __r = " + body + ";\n" + "\n".join(value_drops) + "\n__r }"
+                g.log.rule("Rdrop: the implicit drop of a by-value `self: Unimock` at the end of the fn is made explicit")
             if re.search(r"\(\s*mut self\b", sig):
                 sig = re.sub(r"\(\s*mut self\b", "(self", sig, count=1)
                 body = re.sub(r"(?<![A-Za-z0-9_])self(?![A-Za-z0-9_])", "__self", body)
                 prepends = ["let mut __self = self;"] + prepends
                 appends = [re.sub(r"(?<![A-Za-z0-9_])self(?![A-Za-z0-9_])", "__self", a) for a in appends]
+                body = body.replace("__self::", "Self::").replace("Self::drop_unimock(&mut Self)", "Self::drop_unimock(&mut __self)")
                 g.log.rule("Rmutself: `mut self` parameter -> `self` + `let mut __self = self;`, body refers to __self (Verus has no `mut self`)")
             if prepends:
                 body = "{\n" + "\n".join(prepends) + "\n" + body[1:]
